@@ -47,6 +47,7 @@ class X(Plain):
 class PA(desper.Processor):
     def __init__(self, label):
         self.label = label
+        self.priority = 3       # instance level priority (class default: 0)
 
     def process(self, dt):
         pass
@@ -131,6 +132,13 @@ class TwinDriver:
             ops.append(('disable',) if ctx.enabled else ('enable',))
         for p in PTYPES:
             ops.append(('addproc', p))
+        # a free-standing controller for entity 2 (desper.controller(e, w)
+        # style: never attached as a component), whatever the state of 2
+        for t in self.types:
+            ops += [('f_add', t), ('f_remove', t), ('f_has', t),
+                    ('f_get', t), ('fref_get', t), ('fref_set', t),
+                    ('fref_del', t)]
+        ops += [('f_gets',), ('f_delete',)]
         if self._knows(ctx):
             for t in self.types:
                 ops += [('s_add', t), ('s_remove', t), ('s_has', t),
@@ -152,7 +160,23 @@ class TwinDriver:
         kind = op[0]
         r1 = r2 = None
         deleted_k = False
-        if kind.startswith(('s_', 'ref_', 'pref_')):
+        if kind.startswith(('f_', 'fref_')):
+            ctx.hits['free_controller_' + kind] += 1
+            free = K('free')
+            plain = desper.controller(2, w1)
+            free.entity, free.world = plain.entity, plain.world
+            if not w1.get_components(2):
+                ctx.hits['shorthand_on_entity_without_components'] += 1
+            short = ('s_' + kind[2:]) if kind.startswith('f_') else kind[1:]
+            try:
+                r1, r2 = self._shorthand(ctx, (short,) + tuple(op[1:]), free,
+                                         w2, entity=2)
+            except Violation:
+                raise
+            except Exception as exc:
+                raise Violation('shorthand_same_result',
+                                f'{op}: raised {exc!r}', op=kind)
+        elif kind.startswith(('s_', 'ref_', 'pref_')):
             ctx.hits['shorthand_' + kind] += 1
             k = ctx.k[0]
             if k.entity != 1:
@@ -188,10 +212,18 @@ class TwinDriver:
             w1.delete_entity(op[1], immediate=True)
             w2.delete_entity(op[1], immediate=True)
         elif kind == 'process':
-            try:
-                w1.process(1)
-                w2.process(1)
-            except KeyError:
+            errs = []
+            for w in (w1, w2):
+                try:
+                    w.process(1)
+                    errs.append(None)
+                except KeyError as exc:
+                    errs.append(repr(exc))
+            if errs[0] != errs[1]:
+                raise Violation('shorthand_same_effect',
+                                f'process(): controller side -> {errs[0]}, '
+                                f'World side -> {errs[1]}', op='process')
+            if errs[0] is not None:
                 # deferred delete of an id without components (pinned by the
                 # suite): both twins are in the same situation - C05's topic
                 raise kernel.Pruned('process raised KeyError (C05)')
@@ -239,34 +271,34 @@ class TwinDriver:
                                 f'{"ok" if k.world is ctx.w[i] else k.world!r}',
                                 op=kind, twin=i)
 
-    def _shorthand(self, ctx, op, k, w2):
+    def _shorthand(self, ctx, op, k, w2, entity=1):
         kind = op[0]
         if kind == 's_add':
             c1, c2 = self._new(ctx, op[1])
-            return k.add_component(c1), w2.add_component(1, c2)
+            return k.add_component(c1), w2.add_component(entity, c2)
         if kind == 's_remove':
             return (k.remove_component(TYPES[op[1]]),
-                    w2.remove_component(1, TYPES[op[1]]))
+                    w2.remove_component(entity, TYPES[op[1]]))
         if kind == 's_has':
             return (k.has_component(TYPES[op[1]]),
-                    w2.has_component(1, TYPES[op[1]]))
+                    w2.has_component(entity, TYPES[op[1]]))
         if kind == 's_get':
             return (k.get_component(TYPES[op[1]]),
-                    w2.get_component(1, TYPES[op[1]]))
+                    w2.get_component(entity, TYPES[op[1]]))
         if kind == 's_gets':
-            return k.get_components(), w2.get_components(1)
+            return k.get_components(), w2.get_components(entity)
         if kind == 's_delete':
-            return k.delete(), w2.delete_entity(1)
+            return k.delete(), w2.delete_entity(entity)
         if kind == 'ref_get':
             return (getattr(k, REFS[op[1]]),
-                    w2.get_component(1, TYPES[op[1]]))
+                    w2.get_component(entity, TYPES[op[1]]))
         if kind == 'ref_set':
             c1, c2 = self._new(ctx, op[1])
             setattr(k, REFS[op[1]], c1)
-            return None, w2.add_component(1, c2)
+            return None, w2.add_component(entity, c2)
         if kind == 'ref_del':
             delattr(k, REFS[op[1]])
-            w2.remove_component(1, TYPES[op[1]])
+            w2.remove_component(entity, TYPES[op[1]])
             return None, None
         if kind == 'pref_get':
             return (getattr(k, PREFS[op[1]]),
@@ -291,7 +323,8 @@ class TwinDriver:
             for comp in w.get_components(e):
                 names[id(comp)] = f'{e}.{type(comp).__name__}'
         for proc in w.processors:
-            names[id(proc)] = f'proc.{type(proc).__name__}'
+            names[id(proc)] = (f'proc.{type(proc).__name__}',
+                               getattr(proc, 'priority', None))
 
         def namer(o):
             n = names.get(id(o))
@@ -483,7 +516,9 @@ def run(tier, rep):
         'classes sharing a __name__ share the prefixed method (documented: '
         'use init_methods to tell them apart)',
     ]
-    rep.require_hits(shorthand_s_add=1, shorthand_ref_set=1,
+    rep.require_hits(free_controller_f_delete=1,
+                     shorthand_on_entity_without_components=1,
+                     shorthand_s_add=1, shorthand_ref_set=1,
                      shorthand_pref_set=1, shorthand_s_delete=1,
                      attach_while_disabled=1, postponed_on_add_released=1,
                      entry_wins=1, prefixed_method=1, default_constructor=1,
